@@ -1416,11 +1416,21 @@ func (cs *ClientSession) Subscribe(ctx context.Context, params *SubscribeParams)
 		return nil
 	}
 
-	return cs.subscriptionsListen(listenCtx, &SubscriptionsListenParams{
+	err := cs.subscriptionsListen(listenCtx, &SubscriptionsListenParams{
 		Notifications: &NotificationSubscriptions{
 			ResourceSubscriptions: []string{uri},
 		},
 	})
+	if err != nil {
+		// No stream was opened: forget the subscription.
+		cs.resourceSubsMu.Lock()
+		if cancel, ok := cs.resourceSubs[uri]; ok {
+			delete(cs.resourceSubs, uri)
+			cancel()
+		}
+		cs.resourceSubsMu.Unlock()
+	}
+	return err
 }
 
 // Unsubscribe cancels a previous [ClientSession.Subscribe] for params.URI.
